@@ -82,6 +82,18 @@ type Run struct {
 
 	replayFile string
 	deadline   time.Time
+	onExit     []func()
+}
+
+// OnExit registers a cleanup function run right before the process exits through
+// Finish or DoReplay.
+func (r *Run) OnExit(f func()) { r.onExit = append(r.onExit, f) }
+
+func (r *Run) exit(code int) {
+	for _, f := range r.onExit {
+		f()
+	}
+	os.Exit(code)
 }
 
 // Start parses the command line. args: quick|thorough, or --replay <file>.
@@ -283,6 +295,16 @@ func (r *Run) Violation(kind string, params any, v *Viol) {
 	r.mu.Unlock()
 }
 
+// Recorded reports whether a violation (or known finding) with this signature has
+// been confirmed and recorded.
+func (r *Run) Recorded(sig string) bool {
+	r.mu.Lock()
+	defer r.mu.Unlock()
+	_, a := r.viols[sig]
+	_, b := r.knownHit[sig]
+	return a || b
+}
+
 func safeReplay(fn ReplayFn, pj json.RawMessage) (v *Viol) {
 	defer func() {
 		if e := recover(); e != nil {
@@ -323,11 +345,11 @@ func (r *Run) DoReplay() {
 	v := safeReplay(fn, rec.Params)
 	if v == nil {
 		fmt.Printf("replay: case of kind %s satisfies the property now\n", rec.Kind)
-		os.Exit(0)
+		r.exit(0)
 	}
 	fmt.Printf("replay: %s: %s\n", v.Sig, v.What)
 	fmt.Printf("VIOLATION property=%s replay=%s\n", r.Prop, r.replayFile)
-	os.Exit(1)
+	r.exit(1)
 }
 
 // Finish writes the evidence file, prints the verdict lines and exits.
@@ -436,7 +458,7 @@ func (r *Run) Finish() {
 		fmt.Println(l)
 	}
 	if len(lines) > 0 {
-		os.Exit(1)
+		r.exit(1)
 	}
-	os.Exit(0)
+	r.exit(0)
 }
